@@ -29,13 +29,13 @@ def finisher(rng, tag, kinds):
         return "Q", None, None
     body = body_bytes("w" + tag, rng.choice([4, 300, 2000]))
     raw = b"HTTP/1.1 299 Raw\r\nContent-Length: %d\r\n\r\n" % len(body) + body
-    return {"raw": "W", "rawx": "X", "rawflush": "Y"}[k] + hx(raw), "299", hx(body)
+    return {"raw": "W", "rawx": "X", "rawflush": "Y", "rawflushfirst": "F"}[k] + hx(raw), "299", hx(body)
 
 
-ALL_KINDS = ["respond", "respond", "chunked", "drop", "panic", "raw", "rawx", "rawempty", "rawflush", "rawflush", "rawpanic"]
+ALL_KINDS = ["respond", "respond", "chunked", "drop", "panic", "raw", "rawx", "rawempty", "rawflush", "rawflush", "rawpanic", "rawflushfirst"]
 
 
-def build(rng, i, n, order, grace, kinds=ALL_KINDS, transport="u"):
+def build(rng, i, n, order, grace, kinds=ALL_KINDS, transport="u", tail=None):
     stream = b""
     acts, wu, ws, wrb, hd = [], [], [], [], []
     for k in range(n):
@@ -60,6 +60,17 @@ def build(rng, i, n, order, grace, kinds=ALL_KINDS, transport="u"):
         head = (m == "HEAD")
         hd.append("1" if head and fin[0] in "RDP" else "0")
         wrb.append("-" if (head and fin[0] in "RDP") else rb)
+    # a refused head behind the pipelined requests: the connection thread answers it itself (400 / 417) and must
+    # wait for its turn like everybody else
+    if tail is not None:
+        stream += {"nocolon": b"GET /bad HTTP/1.1\r\nHost h\r\n\r\n",
+                   "ws-colon": b"GET /bad HTTP/1.1\r\nHost : h\r\n\r\n",
+                   "bad-line": b"GET /bad\r\n\r\n",
+                   "bad-expect": b"POST /bad HTTP/1.1\r\nExpect: bogus\r\nContent-Length: 0\r\n\r\n",
+                   "bad-cl": b"POST /bad HTTP/1.1\r\nContent-Length: +3\r\n\r\nabc"}[tail]
+        ws.append("417" if tail == "bad-expect" else "400")
+        wrb.append("~")
+        hd.append("0")
     extra = "order=%s grace=%d wu=%s ws=%s wrb=%s hd=%s we=closed" % (",".join(str(x) for x in order), grace, j(wu), j(ws), j(wrb), j(hd))
     return cv_line(stream, acts, transport=transport, extra=extra).replace("cv ", "pl ", 1), {
         "n": n, "order": "asc" if list(order) == sorted(order) else ("desc" if list(order) == sorted(order, reverse=True) else "mixed"),
@@ -73,6 +84,11 @@ def gen_cases(tier, rng, kinds=ALL_KINDS):
             order = list(range(n))
             rng.shuffle(order)
             yield build(rng, i, n, order, rng.choice([300, 3000, 20000]), kinds)
+        for i in range(200, 230):
+            n = 1 + rng.below(3)
+            order = list(range(n))
+            rng.shuffle(order)
+            yield build(rng, i, n, order, 20000, ["respond", "chunked", "raw"], tail=rng.choice(["nocolon", "ws-colon", "bad-line", "bad-expect", "bad-cl"]))
         for i in range(120, 130):
             n = 3
             order = [2, 1, 0]
